@@ -102,6 +102,7 @@ C["C12"]["text"]+=" Damaged directories are also re-opened with two smaller capa
 C["C13"]["text"]+=" Harnesses include an evicting put with two victims in different key directories racing a put into one of those directories."
 C["C16"]["text"]+=" Two drivers: the in-repo caller's (stops at the first Err) and a persisting one for the inject-persist scenarios (abandons only the file whose operation failed, goes on to finalize), under which the shard-after-its-xorbs clause is judged as well."
 C["C16"]["note"]=C["C16"]["note"].replace("the driver stops at the first Err like in-repo callers;","two drivers (stop at the first Err like in-repo callers / abandon only the failed file);")
+C["C20"]["text"]+=" Parked-caller harnesses (a parent polls a call once, awaits a call on another key, then drives the first to completion; schedule points inside the map-lock sections switched on) are explored delay-bounded as well."
 C["C17"]["text"]+=" Plans with two fetch ranges of one xorb are also answered by a server that hands out ONE url per xorb (ranges differ in url_range only)."
 C["C17"]["note"]=C["C17"]["note"].replace(" Assumes distinct fetch ranges have distinct URLs.","")
 
@@ -119,7 +120,7 @@ m={"version":1,"setup_cmd":"./check --setup",
  "hooks":{"guard":"cargo feature `verif` (on utils, chunk_cache, cas_client, data; new inert crate verif_hooks)",
   "enable":"the harness crates under /verif/harness are cargo path-dependents of /repo/<crate> with features=[\"verif\"]; every ./check run does an incremental cargo build --offline first",
   "baseline_off_cmd":"cd /repo && cargo nextest run --workspace --no-fail-fast --offline",
-  "source_commits":["f198c7b","5a597fe","61cee61","49b5b9d","fbaea1e","06d5c26","10e9a05","cabe0fc"],"add_only":True},
+  "source_commits":["f198c7b","5a597fe","61cee61","49b5b9d","fbaea1e","06d5c26","10e9a05","cabe0fc","875100f","e0e88bd"],"add_only":True},
  "engines":[
   {"name":"E1 vsched","path":"harness/vcore/src/sched.rs","serves_properties":["C12","C13","C20","C16"],"kind_free_text":"cooperative scheduler over real OS threads + stateless preemption-bounded DFS, replay-checked"},
   {"name":"E2 vfs","path":"harness/vcore/src/vfs.rs","serves_properties":["C12","C13","C18","C19"],"kind_free_text":"libc symbol interposition: FS switch points, crash snapshots, fake clock"},
